@@ -22,15 +22,16 @@ RULE = (
 )
 ASSUMPTIONS = ["sphere of radius 6 371 000 m as the code documents", "no antimeridian wrap (not claimed by the code)"]
 TOLERANCES = {"round trip": "1e-9 deg / 1e-6 m", "distance": "0.1 %", "bearing": "0.1 deg"}
-BUDGET = {"quick": dict(examples=3000, shards=1), "thorough": dict(examples=40000, shards=16)}
+BUDGET = {"quick": dict(examples=6000, shards=1), "thorough": dict(examples=100000, shards=16)}
 
 
 @st.composite
 def _case(draw):
-    ref_lat = draw(st.one_of(gen.fl(-60.0, 60.0), st.sampled_from([0.0, 60.0, -60.0, 45.0])))
+    ref_lat = draw(st.one_of(gen.spread(-60.0, 60.0, bins=8), gen.spread(-60.0, 60.0, bins=8), st.sampled_from([0.0, 60.0, -60.0, 45.0])))
     ref_lon = draw(st.one_of(gen.fl(-180.0, 180.0), st.sampled_from([0.0, 179.9, -179.9])))
-    dist = draw(gen.logfl(1.0, 5000.0))
-    bearing = draw(st.one_of(gen.fl(0.0, 359.999), gen.fl(0.0, 359.999), gen.fl(0.0, 359.999), st.sampled_from([0.0, 90.0, 180.0, 270.0])))
+    dist = draw(gen.spread(1.0, 5000.0, bins=7, log=True))
+    bearing = draw(st.one_of(gen.spread(0.0, 359.999, bins=8), gen.spread(0.0, 359.999, bins=8), gen.spread(0.0, 359.999, bins=8),
+                             st.sampled_from([0.0, 90.0, 180.0, 270.0])))
     return {"ref_lat": ref_lat, "ref_lon": ref_lon, "dist": dist, "bearing": bearing,
             "extra": draw(st.lists(st.tuples(gen.fl(-5000.0, 5000.0), gen.fl(-5000.0, 5000.0)), min_size=0, max_size=4))}
 
